@@ -566,6 +566,8 @@ type inliner struct {
 	alias    map[types.Object]types.Object // caller variable defined from a helper result that is one local of the helper
 	brTrue   string                        // modeBranch: labels for `return true` / `return false`
 	brFalse  string
+	body     *ast.BlockStmt // the (copied) body being rewritten
+	caller   *FuncInfo
 	thread   *errThread // modeAssign followed by `if err != nil {..}`: returns jump straight to the right side of that test
 }
 
@@ -720,6 +722,38 @@ func (x *inliner) expand(call *ast.CallExpr, h *FuncInfo, mode int, lhs []ast.Ex
 		if stableArg(x.info, arg) && !assignedOrAddressed(x.info, body, pv) {
 			subst[pv] = arg
 			return
+		}
+		// the argument is a variable of the caller whose only use is this call: the helper's
+		// parameter is that variable (the extraction moved its whole life into the helper)
+		if aid, isID := ast.Unparen(arg).(*ast.Ident); isID && x.body != nil && x.caller != nil {
+			if v, isVar := x.info.Uses[aid].(*types.Var); isVar && !v.IsField() && v.Pkg() != nil && v.Parent() != v.Pkg().Scope() && types.Identical(v.Type(), pv.Type()) {
+				namedResult := false
+				if cs, isSig := x.caller.Obj.Type().(*types.Signature); isSig {
+					for i := 0; i < cs.Results().Len(); i++ {
+						if cs.Results().At(i) == v {
+							namedResult = true
+						}
+					}
+				}
+				uses := 0
+				ast.Inspect(x.body, func(q ast.Node) bool {
+					if id, ok := q.(*ast.Ident); ok && x.info.Uses[id] == v {
+						uses++
+					}
+					return true
+				})
+				inLoop := false
+				for _, anc := range enclosing(x.body, aid) {
+					switch anc.(type) {
+					case *ast.ForStmt, *ast.RangeStmt, *ast.FuncLit:
+						inLoop = true
+					}
+				}
+				if uses == 1 && !namedResult && !inLoop {
+					subst[pv] = arg
+					return
+				}
+			}
 		}
 		id := x.newIdent(pv.Name(), pos, pv, true)
 		out = append(out, &ast.AssignStmt{Lhs: []ast.Expr{id}, TokPos: pos, Tok: token.DEFINE, Rhs: []ast.Expr{arg}})
@@ -2192,6 +2226,7 @@ func (p *Prog) expandNewClosures() {
 		x := &inliner{pk: fi.Pkg, info: info, helpers: map[*types.Func]*FuncInfo{}, closures: cl, seq: &seq}
 		cp := &astCopier{info: info}
 		nb := cp.copyBlock(fi.Decl.Body)
+		x.body, x.caller = nb, fi
 		for round := 0; round < 3; round++ {
 			x.changed = false
 			mapStmtLists(nb, true, x.rewriteList)
@@ -2431,6 +2466,7 @@ func (p *Prog) normalise() {
 				x.helpers = hs
 				cp := &astCopier{info: info}
 				nb := cp.copyBlock(fi.Decl.Body)
+				x.body, x.caller = nb, fi
 				mapStmtLists(nb, true, x.rewriteList)
 				x.valueRefs(nb)
 				if len(x.alias) > 0 {
